@@ -75,7 +75,7 @@ func (g *Graph) String() string {
 			sb.WriteString(" ")
 		}
 		fmt.Fprintf(&sb, "#%d", r.Seq)
-		if r.PK != "" || g.Family == "m2m" || g.Family == "xm2m" || g.Family == "nest" {
+		if r.PK != "" || g.Family == "m2m" || g.Family == "xm2m" || g.Family == "refm2m" || g.Family == "nest" {
 			fmt.Fprintf(&sb, "pk=%q", r.PK)
 		}
 		if r.Key != nil {
@@ -170,6 +170,8 @@ type Dir struct {
 // Family is a group of tables with its models, graph insertion and directions.
 type Family struct {
 	Name   string
+	Poly   bool // polymorphic: child rows carry an owner type ("dog" = ours, "cat" = another owner type)
+	M2M    bool
 	Tables []string
 	Insert func(e *h.Env, g *Graph)
 	Dirs   []*Dir
@@ -239,11 +241,15 @@ type bipCfg struct {
 	extraMany      []string
 	poly           bool
 	self           bool
+	idFromSeq      bool     // the left table has a numeric primary key `id` besides the referenced key: id = seq
+	tables         []string // tables to clear (default: lt, rt)
 }
 
 func newBip(c bipCfg) *Family {
-	f := &Family{Name: c.name}
-	if c.self {
+	f := &Family{Name: c.name, Poly: c.poly}
+	if c.tables != nil {
+		f.Tables = c.tables
+	} else if c.self {
 		f.Tables = []string{c.lt}
 	} else {
 		f.Tables = []string{c.lt, c.rt}
@@ -262,6 +268,10 @@ func newBip(c bipCfg) *Family {
 			args := []interface{}{}
 			for i := range c.lk {
 				args = append(args, arg(l.Key[i], c.intAt[i]))
+			}
+			if c.idFromSeq {
+				cols = append(cols, "id")
+				args = append(args, l.Seq)
 			}
 			cols = append(cols, "seq", "tag", "deleted_at")
 			args = append(args, l.Seq, tagOf(l.Seq), delArg(l.Del))
@@ -430,14 +440,18 @@ func qs(n int) string {
 
 // newM2M: jt = join table, jl = its columns for the left key, jr = its column
 // for the right key (read from the parsed schema at start-up).
-func newM2M(name, lt string, lk []string, lTyp reflect.Type, jt string, jl []string, jr string) *Family {
-	f := &Family{Name: name, Tables: []string{lt, "c11_mr", jt}}
+func newM2M(name, lt string, lk []string, lTyp reflect.Type, jt string, jl []string, jr string, idFromSeq bool) *Family {
+	f := &Family{Name: name, M2M: true, Tables: []string{lt, "c11_mr", jt}}
 	f.Insert = func(e *h.Env, g *Graph) {
 		for _, l := range g.L {
 			cols := append([]string{}, lk...)
 			args := []interface{}{}
 			for i := range lk {
 				args = append(args, arg(l.Key[i], false))
+			}
+			if idFromSeq {
+				cols = append(cols, "id")
+				args = append(args, l.Seq)
 			}
 			cols = append(cols, "seq", "tag", "deleted_at")
 			args = append(args, l.Seq, tagOf(l.Seq), delArg(l.Del))
